@@ -1064,6 +1064,9 @@ pub enum HOp {
     Advance(i64),
     /// orderly stop of the logger and start of a new one on the same family
     Restart { append: bool },
+    /// reopen_output() with the current file in place (a SIGHUP handler that fires although the
+    /// external rotator had nothing to do): nothing changes for the records or the rotation
+    Reopen,
 }
 
 pub struct Hist {
@@ -1123,6 +1126,7 @@ impl Hist {
                 self.driver.rotate()?;
             }
             HOp::Flush => self.driver.flush(),
+            HOp::Reopen => self.driver.reopen()?,
             HOp::Advance(d) => {
                 let before = self.now() / 1_000_000_000;
                 ctl::clock_advance(*d);
